@@ -3,6 +3,7 @@ package store
 import (
 	"errors"
 	"fmt"
+	"github.com/LemoFoundationLtd/lemochain-core/chain/params"
 	"github.com/LemoFoundationLtd/lemochain-core/chain/types"
 	"github.com/LemoFoundationLtd/lemochain-core/common"
 	"github.com/LemoFoundationLtd/lemochain-core/common/log"
@@ -259,6 +260,13 @@ func (database *ChainDatabase) blockCommit(hash common.Hash) error {
 
 	batch.Put(leveldb.ItemFlagBlock, hash.Bytes(), buf)
 	batch.Put(leveldb.ItemFlagBlockHeight, leveldb.EncodeNumber(cItem.Block.Height()), hash.Bytes())
+	// the asset index of the block goes into the same batch. BeansDB.After writes it too, but only when the write
+	// goroutine comes to the block, and till then the assets of a stable block could not be found
+	for _, tx := range cItem.Block.Txs {
+		if tx.Type() == params.CreateAssetTx {
+			batch.Put(leveldb.ItemFlagAssetCode, tx.Hash().Bytes(), tx.From().Bytes())
+		}
+	}
 
 	// store account
 	decode := func(account *types.AccountData, batch Batch) error {
@@ -788,6 +796,23 @@ func (database *ChainDatabase) CandidatesRanking(hash common.Hash, voteLogs type
 }
 
 func (database *ChainDatabase) GetAssetCode(code common.Hash) (common.Address, error) {
+	return UtilsGetAssetCode(database.Beansdb, code)
+}
+
+// GetAssetCodeByBlock returns the issuer of the asset as it is known on the fork of the block: a create-asset transaction
+// in the block or in its ancestors which are not stable yet, or else the index of the stable blocks.
+// The index alone knows only the stable blocks of this node, and which blocks are stable differs from node to node
+func (database *ChainDatabase) GetAssetCodeByBlock(code common.Hash, hash common.Hash) (common.Address, error) {
+	database.RW.RLock()
+	for cItem := database.UnConfirmBlocks[hash]; cItem != nil && cItem.Block != nil; cItem = cItem.Parent {
+		for _, tx := range cItem.Block.Txs {
+			if tx.Type() == params.CreateAssetTx && tx.Hash() == code {
+				database.RW.RUnlock()
+				return tx.From(), nil
+			}
+		}
+	}
+	database.RW.RUnlock()
 	return UtilsGetAssetCode(database.Beansdb, code)
 }
 
